@@ -119,6 +119,16 @@ def run(tier: str) -> int:
             c[k] = -c[k]
         cases.append(("ymd", tuple(c)))
     events = observe(cases)
+    # a microsecond component of seven and more digits (a whole number of seconds and more: the literal carries the digits as given, nothing is
+    # carried into the seconds), alone and under larger units, leading component of either sign
+    for us in (1000000, 2500000, 12345678, 999999, 1000001):
+        for lead in ((), (5, 1), (4, 2), (5, -1), (3, -3), (2, 7)):
+            c = [0] * 7
+            c[6] = us
+            if lead:
+                c[lead[0]] = lead[1]
+            cases.append(("ymd", tuple(c)))
+        cases.append(("ymd", (0, 0, 0, 0, 0, 0, -us)))
     # operand positions: every digit-pattern class once (values 0/1/10/105 over 7 fields, first 300 + every 29th) and the seeded ones sparsely
     emb = embedded([c for k, c in enumerate(cases) if k < 300 or k % (29 if tier == "quick" else 7) == 0], rep)
     for e in emb:
